@@ -515,6 +515,7 @@ var Methods = map[string]MethodSig{
 	"Boom":    {Name: "Boom", Params: []Type{TInt}, Ret: TInt},
 	"BoomErr": {Name: "BoomErr", Params: []Type{TInt}, Ret: TInt},
 	"Label": {Name: "Label", Ret: TString, Reads: "S"},
+	"LabelOf": {Name: "LabelOf", Params: []Type{TString}, Ret: TString, Reads: "S"},
 	"SetI":  {Name: "SetI", Params: []Type{TInt}, Mutator: true},
 	"Bump":  {Name: "Bump", Params: []Type{TInt}, Mutator: true},
 	"SetS":  {Name: "SetS", Params: []Type{TString}, Mutator: true},
@@ -588,6 +589,8 @@ func (m *Model) evalCall(e *Expr, apply bool) (interface{}, error) {
 		return nil, merr("method %s panics", e.Fn)
 	case "Label":
 		return f.S, nil
+	case "LabelOf":
+		return args[0].(string) + ":" + f.S, nil
 	case "Sum":
 		xs := make([]int64, len(args))
 		for i, a := range args {
